@@ -115,7 +115,7 @@ func runOne(t *testing.T, sc *Scenario, prop string, seed uint64, run int, force
 			End: res.End.String(), EndMsg: res.Msg, Steps: res.Steps, SimNs: int64(res.Elapsed),
 			TraceHash: hx(res.TraceHash), SchedHash: hx(sim.SchedHash()),
 			Contended: sim.Contended(), Switches: sim.Switches(), Tasks: len(sim.Tasks()),
-			Probes: sim.Probes, Faults: sim.Faults, Cfg: rc.Cfg, Viol: rc.Viol,
+			Probes: sim.Probes(), Faults: sim.Faults(), Cfg: rc.Cfg, Viol: rc.Viol,
 			Inconcl: rc.Inconcl, NChoices: len(rng.Log), Leaked: res.Leaked, Notes: rc.Notes,
 		}
 		if res.End == simrt.EndPanic && rc.Viol == nil {
@@ -125,7 +125,7 @@ func runOne(t *testing.T, sc *Scenario, prop string, seed uint64, run int, force
 			rec.Inconcl = "step cap"
 		}
 		if full || rec.Viol != nil || run%97 == 0 {
-			rec.Choices = rng.Log
+			rec.Choices = append([]uint32(nil), rng.Log...)
 			rec.Trace = formatTrace(sim.Trace(), sim.Tasks(), 400)
 			rec.NetLog = formatNetLog(rc.Net, 200)
 		}
